@@ -97,36 +97,35 @@ func genCase(rt *rapid.T) tcase {
 	var c tcase
 	c.Rows = cond.GenRows(rt, 12)
 	x := cond.G(rt)
-	n := rapid.IntRange(1, 5).Draw(rt, "calls")
+	n := []int{1, 1, 2, 2, 2, 3, 3, 3, 4, 5}[x.N(10)]
 	c.Calls = cond.GenCalls(rt, cfg, n)
-	kind := rapid.SampledFrom([]string{"find", "find", "find-pk", "count", "update", "update", "delete", "delete"}).Draw(rt, "fin")
+	kind := []string{"find", "find", "find", "find-pk", "count", "count", "update", "update", "delete", "delete"}[x.N(10)]
 	c.Fin.Kind = kind
-	pk := func() int { return rapid.IntRange(1, 13).Draw(rt, "pk") }
+	pk := func() int { return 1 + x.N(13) }
 	switch kind {
 	case "find":
-		if rapid.IntRange(0, 99).Draw(rt, "inl") < 35 {
+		if x.Pct(35) {
 			c.Fin.Inline = cond.GenInline(rt, cfg)
 		}
 	case "find-pk":
 		c.Fin.PK = pk()
-		if rapid.IntRange(0, 99).Draw(rt, "inl") < 25 {
+		if x.Pct(25) {
 			c.Fin.Inline = cond.GenInline(rt, cfg)
 		}
 	case "update":
-		c.Fin.ModelFirst = rapid.Bool().Draw(rt, "modelFirst")
-		if rapid.IntRange(0, 99).Draw(rt, "haspk") < 30 {
+		c.Fin.ModelFirst = x.Pct(50)
+		if x.Pct(20) {
 			c.Fin.PK = pk()
 		}
 	case "delete":
-		if rapid.IntRange(0, 99).Draw(rt, "haspk") < 30 {
+		if x.Pct(20) {
 			c.Fin.PK = pk()
-			c.Fin.ViaModel = rapid.Bool().Draw(rt, "viaModel")
+			c.Fin.ViaModel = x.Pct(50)
 		}
-		if rapid.IntRange(0, 99).Draw(rt, "inl") < 35 {
+		if x.Pct(30) {
 			c.Fin.Inline = cond.GenInline(rt, cfg)
 		}
 	}
-	_ = x
 	return c
 }
 
@@ -467,4 +466,66 @@ func TestC02WitnessKeywordDelimiter(t *testing.T) {
 	if !strings.Contains(c.String(), "Or(") {
 		t.Fatalf("descriptor lost the chain: %s", c)
 	}
+}
+
+func namedUnit(sql string, tree *cond.Node, args map[string]interface{}) *cond.Unit {
+	return &cond.Unit{Form: cond.FNamed, Tree: tree, Query: sql, Args: []interface{}{args}, Desc: fmt.Sprintf("%q %v", sql, args)}
+}
+
+var witnessRows = func() []cond.Row {
+	one := 1
+	return []cond.Row{
+		{ID: 1, Ca: 1, Cb: 0, Cs: "b"},
+		{ID: 2, Ca: 1, Cb: 0, Cs: "a"},
+		{ID: 3, Ca: 0, Cb: 2, Cs: "a", Cn: &one},
+		{ID: 4, Ca: 0, Cb: 2, Cs: "b"},
+		{ID: 5, Ca: 3, Cb: 3, Cs: "a"},
+		{ID: 6, Ca: 3, Cb: 3, Cs: "b"},
+	}
+}()
+
+func runWitness(t *testing.T, calls ...cond.Call) {
+	t.Helper()
+	for _, kind := range []string{"find", "count", "update", "delete"} {
+		c := tcase{Rows: witnessRows, Fin: fin{Kind: kind, ModelFirst: true}, Calls: calls}
+		msg, err := check(c)
+		if err != nil {
+			t.Fatalf("harness: %v", err)
+		}
+		if msg != "" {
+			t.Errorf("C02 violated: %s, case: %s", msg, c)
+		}
+	}
+}
+
+// open finding named-under-not: Not("ca = @x OR cb = @y", args) renders
+// `NOT ca = 1 OR cb = 2`: the NOT covers the first member only.
+func TestC02WitnessNamedUnderNot(t *testing.T) {
+	or := cond.Or(cond.Atom("ca", cond.OpEq, iv(1)), cond.Atom("cb", cond.OpEq, iv(2)))
+	and := cond.And(cond.Atom("ca", cond.OpEq, iv(1)), cond.Atom("cs", cond.OpEq, cond.StrV("a")))
+	runWitness(t, cond.Call{Verb: cond.VNot, U: namedUnit("ca = @x OR cb = @y", or, map[string]interface{}{"x": 1, "y": 2})})
+	runWitness(t, cond.Call{Verb: cond.VNot, U: namedUnit("ca = @x AND cs = @y", and, map[string]interface{}{"x": 1, "y": "a"})})
+}
+
+// open finding named-or-under-or: Where(A).Or("ca = @x OR cb = @y", args).Where(B)
+// renders `A OR ca = 1 OR cb = 2 AND B`: the Or unit is split by the AND.
+func TestC02WitnessNamedOrUnderOr(t *testing.T) {
+	or := cond.Or(cond.Atom("ca", cond.OpEq, iv(1)), cond.Atom("cb", cond.OpEq, iv(2)))
+	runWitness(t,
+		cond.Call{Verb: cond.VWhere, U: rawUnit("ca = 3 AND cs = 'b'", cond.And(cond.Atom("ca", cond.OpEq, iv(3)), cond.Atom("cs", cond.OpEq, cond.StrV("b"))))},
+		cond.Call{Verb: cond.VOr, U: namedUnit("ca = @x OR cb = @y", or, map[string]interface{}{"x": 1, "y": 2})},
+		cond.Call{Verb: cond.VWhere, U: rawUnit("cs = 'a'", cond.Atom("cs", cond.OpEq, cond.StrV("a")))},
+	)
+}
+
+// open finding not-group-cmp-or-raw: Not(db.Where(map{cb:1}).Or("ca = ? AND cs = ?", 1, "a"))
+// renders `(cb <> 1 AND NOT ca = 1 AND cs = 'a')`: the raw Or member is negated without parentheses.
+func TestC02WitnessNotGroupCmpOrRaw(t *testing.T) {
+	and := cond.And(cond.Atom("ca", cond.OpEq, iv(1)), cond.Atom("cs", cond.OpEq, cond.StrV("a")))
+	cb := cond.Atom("cb", cond.OpEq, iv(2))
+	group := &cond.Unit{Form: cond.FGroup, Group: []cond.Call{
+		{Verb: cond.VWhere, U: &cond.Unit{Form: cond.FMap, Tree: cb, Members: []*cond.Node{cb}, Query: map[string]interface{}{"cb": 2}, Desc: "map{cb:2}"}},
+		{Verb: cond.VOr, U: rawUnit("ca = ? AND cs = ?", and, 1, "a")},
+	}}
+	runWitness(t, cond.Call{Verb: cond.VNot, U: group})
 }
